@@ -40,7 +40,7 @@ func init() {
 		Rule: "valid strings built by the model encoder (total lengths 90 down to 12, lower and upper case, human-readable parts with letters and digits). w1: every substitution of one character; w2: every substitution of two characters (one case per first position, all second positions and all replacement values inside); w34: seeded random patterns of 3 and 4 changed characters. " +
 			"A data-part character (checksum included) is replaced by every other charset character in the case of the string, a letter of the human-readable part by every other letter of the same case, a digit by every other digit. Every corrupted string goes through bech32.Decode; an acceptance is a violation. " +
 			"syndrome (one case, shard 0): sigma(j,v) = polymod(base xor e_{j,v}) xor polymod(base) is read from the real bech32Polymod (hook VerifPolymod) for every distance j = 0..88 from the end and every v = 1..31 on several random bases of lengths 89..178; independence of base and length and additivity on sampled patterns are monitored; all single and pair sums (and the empty sum) are sorted and searched for equal values: two different entries with the same value are an undetected error of weight <= 4; a hit is turned into a pair of concrete strings and confirmed through bech32.Encode/Decode before it is reported. " +
-			"concurrent: 8 goroutines call Decode at once on valid strings with related human-readable parts and on corrupted strings made of a related human-readable part (1..4 letters changed) and the data part of a valid string; every corrupted string must be rejected. acceptset: for one valid string the six checksum symbols are XORed with a 30-bit delta, which makes the checksum polymod 1^delta; Decode must reject every delta != 0: plausible constants (Bech32m, 0, small values, single bits) on every shard and 2^22-value chunks of all 2^30 values (one random chunk per shard in quick, all 256 chunks = exhaustive in thorough); an accepted delta is converted with the syndrome table into an error pattern of weight <= 4 and confirmed as a pair of strings. " +
+			"concurrent: 8 goroutines call Decode at once on valid strings with related human-readable parts and on corrupted strings made of a related human-readable part (1..4 letters changed) and the data part of a valid string; every corrupted string must be rejected. acceptset: for one valid string (random human-readable part; also every entry of a list of deployed prefixes incl. iota, atoi, smr, rms, bc, tb, since the accepted checksum values may depend on the prefix) the six checksum symbols are XORed with a 30-bit delta, which makes the checksum polymod 1^delta; Decode must reject every delta != 0: plausible constants (Bech32m, 0, small values, single bits) on every shard and 2^22-value chunks of all 2^30 values (one random chunk per shard in quick, all 256 chunks = exhaustive in thorough); an accepted delta is converted with the syndrome table into an error pattern of weight <= 4 and confirmed as a pair of strings. " +
 			"history: the acceptance-set scan on an 89-character valid string with a rejected call in front of every probe — bech32.Decode, or address.ParseBech32 which sits on top of it — (8 kinds of rejected strings: invalid character at the end / in the middle of the data part, data part shorter than a checksum, mixed case, wrong checksum, no separator, over-long, empty human-readable part); 2^17 checksum values per kind and shard in the quick tier, 2^23 in the thorough tier, and all 2^30 (split over the shards) as soon as the valid string itself is rejected after such a call; an accepted value is turned into a pattern of at most four substitutions inside the data part of the same string and confirmed through the same two calls. " +
 			"Non-trivial: every w2, w34, acceptset, history and syndrome case (distinct (string, first position) resp. (string, pattern seed)).",
 		Assumptions: []string{"the BIP-173 port in harness/oracle/bech32m builds the valid strings (self-tested against the vectors published in BIP-173); the library must accept them, otherwise that is reported",
@@ -54,7 +54,7 @@ func init() {
 				r.AddInconclusive("Decode rejected a valid string right after a rejected call (it depends on the call before it), but no string within four substitutions of a valid one was found to be accepted in that situation")
 			}
 		},
-		Required: []string{"history: valid string accepted right after a rejected call", "history scan: checksum values tried through Decode, each right after a rejected call", "concurrent executions", "acceptance-set scan: targeted constants", "acceptance-set scan: 2^22 chunks", cW1, cW2, cW34, cHRP, cTable, cAdditive, cMitm, "syndromes recorded (j, v)"},
+		Required: []string{"history: valid string accepted right after a rejected call", "history scan: checksum values tried through Decode, each right after a rejected call", "concurrent executions", "acceptance-set scan: targeted constants", "acceptance-set scan: targeted constants on a well-known human-readable part", "acceptance-set scan: 2^22 chunks", cW1, cW2, cW34, cHRP, cTable, cAdditive, cMitm, "syndromes recorded (j, v)"},
 	})
 }
 
@@ -68,6 +68,9 @@ func render(class string, key []byte) interface{} {
 	case "history":
 		return map[string]interface{}{"rejected_string_decoded_before_every_probe": poison(fw.GetU64(p[0]), p[1][0]), "base_seed": fw.GetU64(p[0]), "share": fmt.Sprintf("%d of %d", fw.GetU32(p[2]), fw.GetU32(p[3]))}
 	case "acceptset":
+		if p[1][0] == 2 {
+			return map[string]interface{}{"base_string": bechscan.BaseHRP(fw.GetU64(p[0]), bechscan.WellKnownHRPs[int(fw.GetU32(p[2]))%len(bechscan.WellKnownHRPs)]), "mode": "targeted constants on a well-known human-readable part"}
+		}
 		return map[string]interface{}{"base_string": bechscan.Base(fw.GetU64(p[0])), "mode": map[byte]string{0: "targeted constants", 1: "chunk of 2^22 checksum values"}[p[1][0]], "chunk": fw.GetU32(p[2])}
 	case "w1":
 		return map[string]interface{}{"string": string(p[0])}
@@ -133,8 +136,8 @@ func newTarget(s string, o *fw.Obs) *target {
 		return nil
 	}
 	if err != nil {
-		o.Fail("base", "the valid string %+q is rejected by Decode: %v", s, err)
-		return nil
+		// C04's matter; the corrupted versions of a valid Bech32 string must be rejected whatever Decode says about the string itself
+		o.Count("valid base string rejected by Decode (left to C04); its neighbourhood is scanned all the same")
 	}
 	t.alts = make([][]byte, len(s))
 	for i := range t.alts {
@@ -609,6 +612,13 @@ func gen(g *fw.Gen) {
 	// acceptance-set scan through Decode: targeted constants on every shard; 2^22-value chunks of the
 	// 2^30 checksum values: one random chunk per shard (quick), all 256 chunks (thorough)
 	g.Emit("acceptset", fw.Pack(fw.U64(g.Rng.Uint64()), []byte{0}, fw.U32(0)))
+	// the same on human-readable parts an implementation may treat specially (the repository's own prefixes,
+	// those of other deployed formats): which checksum values are accepted may depend on the prefix
+	for i := range bechscan.WellKnownHRPs {
+		if g.Own(i) {
+			g.Emit("acceptset", fw.Pack(fw.U64(g.Rng.Uint64()), []byte{2}, fw.U32(uint32(i))))
+		}
+	}
 	if g.Build == "386" {
 		// the scan over checksum values runs on the native build only
 	} else if g.Quick() {
